@@ -26,6 +26,11 @@ pub mod ax {
                 forall|s: String| #[trigger] IntoSpec::<String>::into_spec(s) == s,
     {}
     #[verifier::external_body]
+    pub broadcast proof fn axiom_str_into_string()
+        ensures #[trigger] <&str as IntoSpec<String>>::obeys_into_spec(),
+                forall|s: &str| (#[trigger] IntoSpec::<String>::into_spec(s))@ == s@,
+    {}
+    #[verifier::external_body]
     pub broadcast proof fn axiom_value_into_value()
         ensures #[trigger] <Value as IntoSpec<Value>>::obeys_into_spec(),
                 forall|v: Value| #[trigger] IntoSpec::<Value>::into_spec(v) == v,
